@@ -75,6 +75,29 @@ def nested_lists(m):
     return out
 
 
+def shared_lists(a, b, deep):
+    """the model's separation (Heap.Sep) observed on the real objects: which private lists do the two
+    containers share?  (the item list `__items`, the value list of each key; nested levels if `deep`)"""
+    out = []
+    ia = getattr(a, "_OrderedMultiDict__items", None)
+    ib = getattr(b, "_OrderedMultiDict__items", None)
+    if ia is not None and ia is ib:
+        out.append("__items")
+    for k in dict.keys(a):
+        if dict.__contains__(b, k) and dict.__getitem__(a, k) is dict.__getitem__(b, k):
+            out.append("values of %r" % (k,))
+    if deep:
+        for (ka, va), (kb, vb) in zip(list(a), list(b)):
+            if isinstance(va, OrderedMultiDict) and isinstance(vb, OrderedMultiDict):
+                if va is vb:
+                    out.append("nested container %r" % (ka,))
+                else:
+                    out += ["%r/%s" % (ka, x) for x in shared_lists(va, vb, True)]
+            elif isinstance(va, list) and va is vb:
+                out.append("nested list %r" % (ka,))
+    return out
+
+
 def mutate_top(rng, m):
     r = rng.random()
     try:
@@ -123,6 +146,10 @@ def run(ctx):
                     why = "%s changed a container class: %s vs %s" % (name, classes(c), scls)
                 elif c is m:
                     why = "%s returned the same object" % name
+                elif shared_lists(c, m, name in DEEP):
+                    # the hypothesis of the Lean theorem C11_independent (Sep) does not hold of the real objects
+                    why = "the %s result shares private lists with the original (%s): the copy is not separate" % (
+                        name, ", ".join(shared_lists(c, m, name in DEEP))[:200])
                 else:
                     # independence of the top level
                     for _ in range(3):
